@@ -62,7 +62,7 @@ func init() {
 			cs = append(cs, ev.MkCase("batch", c06Batch{Kind: "handshakes", Seed: seed}))
 			n := 1
 			if tier == "thorough" {
-				n = 10
+				n = 80
 			}
 			for i := 0; i < n; i++ {
 				for _, in := range []bool{false, true} {
